@@ -420,8 +420,27 @@ Definition render_item (it : bytes * bytes) : bytes := fst it ++ ch_eq :: snd it
 Definition render_items (items : list (bytes * bytes)) : bytes :=
   ch_lbr :: concat (map render_item items) ++ [ch_rbr].
 
+(* what ExportSecSessionInfo refuses besides '#' (fix d5d613e): a ';' in any rendered value
+   (the importer splits on ';' without looking at quotes) and a '.' in the cipher list
+   ('.' stands in for ',' inside a claim id).  [ne]: a present, non-empty string. *)
+Definition ne (o : option bytes) : option bytes :=
+  match o with Some ((_ :: _) as v) => Some v | _ => None end.
+Definition str_safe (p : policy) (k : bytes) : bool :=
+  match ne (get_str p k) with Some v => negb (contains ch_semi v) | None => true end.
+Definition policy_safe (p : policy) : bool :=
+  str_safe p A_Integrity && str_safe p A_Encryption && str_safe p A_ValidCommands
+  && match ne (get_str p A_CryptoMethods) with
+     | Some cm => negb (contains ch_semi cm) && negb (contains ch_dot cm)
+     | None => true
+     end
+  && match ne (get_str p A_RemoteVersion) with
+     | Some rv => negb (contains ch_semi (short_version rv))
+     | None => true
+     end.
+
 (* ExportSecSessionInfo (policy non-nil) *)
 Definition export_info (p : policy) : res bytes :=
+  if negb (policy_safe p) then Err else
   let info := render_items (export_items p) in
   if contains ch_hash info then Err else Ok info.
 
@@ -629,18 +648,29 @@ Fixpoint cache_store (e : entry) (c : cache) : cache :=
   | x :: r => if bytes_eqb (e_id x) (e_id e) then e :: r else x :: cache_store e r
   end.
 
+(* the cache proper: entries by id plus the command map {tag,addr,<cmd>} -> id.
+   Store (fix dcd50bb) drops the mappings of the id it (re)files; the importer / minter then
+   installs its own with MapCommand (which overwrites a key already present). *)
+Record cstate := { cs_entries : cache; cs_cmds : list (bytes * bytes) }.
+Definition cstate_empty : cstate := {| cs_entries := []; cs_cmds := [] |}.
+Definition cstate_file (e : entry) (cmds : list bytes) (s : cstate) : cstate :=
+  {| cs_entries := cache_store e (cs_entries s);
+     cs_cmds := map (fun k => (k, e_id e)) cmds
+                ++ filter (fun kv => negb (bytes_eqb (snd kv) (e_id e)) && negb (existsb (bytes_eqb (fst kv)) cmds))
+                          (cs_cmds s) |}.
+
 (* ImportClaimSession / ImportFileTransferSession / MintClaimSession acting on a cache that
    may already hold entries (of any origin): whatever was filed under the id is replaced *)
-Definition import_into (ft : bool) (c : cache) (claim : bytes) (o : import_opts)
-  : cache * res (bytes * entry * list bytes) :=
+Definition import_into (ft : bool) (c : cstate) (claim : bytes) (o : import_opts)
+  : cstate * res (bytes * entry * list bytes) :=
   match (if ft then import_ft claim o else import_claim claim o) with
-  | Ok (sid, e, cmds) => (cache_store e c, Ok (sid, e, cmds))
+  | Ok (sid, e, cmds) => (cstate_file e cmds c, Ok (sid, e, cmds))
   | r => (c, r)
   end.
-Definition mint_into (c : cache) (o : mint_opts) (secret : bytes) (now_ns : Z) : cache * res minted :=
+Definition mint_into (c : cstate) (o : mint_opts) (secret : bytes) (now_ns : Z) : cstate * res minted :=
   match mint o secret now_ns with
-  | Ok m => (cache_store (m_entry m) c, Ok m)
+  | Ok m => (cstate_file (m_entry m) (m_cmds m) c, Ok m)
   | r => (c, r)
   end.
-Definition import_seq (steps : list (bool * bytes * import_opts)) (c : cache) : cache :=
+Definition import_seq (steps : list (bool * bytes * import_opts)) (c : cstate) : cstate :=
   fold_left (fun c st => let '(ft, claim, o) := st in fst (import_into ft c claim o)) steps c.
